@@ -633,7 +633,9 @@ def _tool_loop_table(p, led, nuc, twt):
     from ..fdai import Interp, Obj, Unknown, PyRaise, ExcVal, explore, Imprecise, stub
     probs, npaths = [], 0
     for limit in (0, 1, 2, 3, 4, 9, 30):
-        for behaviour in (("forever", "stops") if limit <= 4 else ("forever",)) + (("raises",) if limit else ()) + (("forever, a tool re-enters the loop",) if 2 <= limit <= 3 else ()):
+        FINALS = ("forever, and has nothing to say in the final completion", "forever, and fails the final completion")
+        for behaviour in (("forever", "stops") if limit <= 4 else ("forever",)) + (("raises",) if limit else ()) + (("forever, a tool re-enters the loop",) if 2 <= limit <= 3 else ()) \
+                + (FINALS if limit in (0, 1, 2) else ()):
             def go(o, _limit=limit, _beh=behaviour):
                 it = Interp(p, o)
                 log = []
@@ -652,11 +654,25 @@ def _tool_loop_table(p, led, nuc, twt):
                 @stub
                 def complete(interp, args, kwargs):
                     log.append("plain")
+                    if "fails the final" in _beh:
+                        ecls = interp.p.classes.get("TranscriptionFailedError")
+                        if ecls:
+                            raise PyRaise(interp.instantiate(ecls[0], ["nothing came back"], {}))
+                        raise PyRaise(ExcVal("RuntimeError", ("nothing came back",)))
+                    if "nothing to say" in _beh:
+                        rcls = interp.p.classes.get("LLMResponse")
+                        if rcls:
+                            return interp.instantiate(rcls[0], [], dict(content="", model="stub", tokens_used=0, latency_ms=0.0))
+                        return Obj(None, {"content": "", "model": "stub", "tokens_used": 0, "latency_ms": 0.0}, tag="response")
                     return Unknown("final_answer")
                 provider = Obj(None, {"name": "stub", "complete_with_tools": cwt, "complete": complete}, tag="provider")
                 n = it.instantiate(nuc, [], dict(provider=provider))
                 n.fields["provider"] = provider
-                it.stubs["Nucleus.transcribe"] = lambda interp, args, kwargs: (log.append("plain"), Unknown("final_answer"))[1]
+                if "final completion" not in _beh:
+                    it.stubs["Nucleus.transcribe"] = lambda interp, args, kwargs: (log.append("plain"), Unknown("final_answer"))[1]
+                else:
+                    # the real transcribe runs: the *provider's* plain completions are what the statement counts
+                    it.ext_stubs["time.sleep"] = lambda interp, args, kwargs: None
                 mito = Obj(None, {}, tag="mitochondria")
 
                 @stub
@@ -701,6 +717,10 @@ def _tool_loop_table(p, led, nuc, twt):
                     probs.append(f"{tag}: {rounds} tool rounds")
                 if r["log"].count("failed-call") > 1:
                     probs.append(f"{tag}: the failing provider call was issued {r['log'].count('failed-call')} times")
+                if "final completion" in behaviour:
+                    if plain > 1:
+                        probs.append(f"{tag}: the provider is asked for {plain} plain completions after the exhausted loop (one final completion is the budget; retries of it are further completions)")
+                    continue
                 if "raised" in r:
                     if behaviour != "raises":
                         probs.append(f"{tag}: raises {r['raised']}")
